@@ -775,6 +775,35 @@ static void ptr_tests(std::mt19937_64& rng, bool thorough)
     ptr_event("reinterpret_cast", rw, got, r);
     r = guarded([&] { got = sandbox_reinterpret_cast<char*>(*pp).UNSAFE_unverified(); });
     ptr_event("reinterpret_cast(volatile)", rw, got, r);
+    // cells whose pointee is itself a pointer (to a function, to a pointer) or an array: all of them
+    // are DATA pointers, translated like any other
+    {
+      using FnPP = int (**)(int);
+      static auto pfpp = sb->malloc_in_sandbox<FnPP>();
+      *reinterpret_cast<GP*>(pfpp.UNSAFE_unverified()) = rep;
+      r = guarded([&] {
+        tainted<FnPP, Sbx> t = *pfpp;
+        got = reinterpret_cast<const void*>(t.UNSAFE_unverified());
+      });
+      ptr_event("cell(fn**)", rw, got, r);
+      r = guarded([&] { got = reinterpret_cast<const void*>((*pfpp).UNSAFE_unverified()); });
+      ptr_event("cell(fn**).unverified", rw, got, r);
+      static auto pppp = sb->malloc_in_sandbox<int***>();
+      *reinterpret_cast<GP*>(pppp.UNSAFE_unverified()) = rep;
+      r = guarded([&] {
+        tainted<int***, Sbx> t = *pppp;
+        got = t.UNSAFE_unverified();
+      });
+      ptr_event("cell(int***)", rw, got, r);
+      using PArr = int (*)[3];
+      static auto pparr = sb->malloc_in_sandbox<PArr>();
+      *reinterpret_cast<GP*>(pparr.UNSAFE_unverified()) = rep;
+      r = guarded([&] {
+        tainted<PArr, Sbx> t = *pparr;
+        got = t.UNSAFE_unverified();
+      });
+      ptr_event("cell(int(*)[3])", rw, got, r);
+    }
     if (rw < (W)SIZE) {
       // the representation is what the sandbox's allocator answers (0 = allocation failed)
       sb->get_sandbox_impl()->malloc_override = true;
@@ -1220,6 +1249,54 @@ static void entry_tests()
   }
 }
 
+// ---------------------------------------------------------------- arrays of pointers entering sandbox memory (C02)
+// what reaches the sandbox cells is the representation of each pointer, never an application address
+static void ptrarray_tests()
+{
+  auto parr = sb->malloc_in_sandbox<const char* [3]>();
+  GP* raw = reinterpret_cast<GP*>(parr.UNSAFE_unverified());
+  auto ps = sb->malloc_in_sandbox<PS>();
+  for (long off : { 16L, 2048L, SIZE - 1 }) {
+    tainted<const char* [3], Sbx> ta;
+    ta[0] = sb->UNSAFE_accept_pointer((const char*)(BASE + off));
+    ta[1] = nullptr;
+    ta[2] = sb->UNSAFE_accept_pointer((const char*)(BASE + 32));
+    raw[0] = raw[1] = raw[2] = (GP)0xBEEF;
+    const char* r = guarded([&] { *parr = ta; });
+    for (int k = 0; k < 3; k++) {
+      tr::Ev e("ptrstore");
+      e.str("pos", "entry: whole array of pointers").str("own", "s0").str("out", r).num("size", SIZE);
+      if (k == 1) {
+        e.str("cls", "null");
+      } else {
+        e.str("cls", "in").str("sb", "s0").num("off", k == 0 ? off : 32);
+      }
+      e.wide("rep", (W)raw[k]);
+      out.put(e);
+    }
+    // the same array handed to the sandbox as its representation (UNSAFE_sandboxed)
+    GP seen[3] = { (GP)0xBEEF, (GP)0xBEEF, (GP)0xBEEF };
+    r = guarded([&] {
+      auto sbxed = ta.UNSAFE_sandboxed(*sb);
+      for (int k = 0; k < 3; k++) {
+        seen[k] = (GP)sbxed[k];
+      }
+    });
+    for (int k = 0; k < 3; k++) {
+      tr::Ev e("ptrstore");
+      e.str("pos", "entry: array of pointers, UNSAFE_sandboxed").str("own", "s0").str("out", r).num("size", SIZE);
+      if (k == 1) {
+        e.str("cls", "null");
+      } else {
+        e.str("cls", "in").str("sb", "s0").num("off", k == 0 ? off : 32);
+      }
+      e.wide("rep", (W)seen[k]);
+      out.put(e);
+    }
+  }
+  (void)ps;
+}
+
 // ---------------------------------------------------------------- addresses of sandbox functions (C02)
 // The tainted function pointer the application obtains for a sandbox function designates that
 // function INSIDE the sandbox (its table index), never the host-side entry point used to invoke it -
@@ -1358,6 +1435,7 @@ int main(int argc, char** argv)
   } else if (mode == "entry") {
     entry_tests();
     fnaddr_tests();
+    ptrarray_tests();
 #ifdef VM_GRANT_DENY
     grant_tests();
 #endif
